@@ -12,6 +12,7 @@
  *                                 advances both handles with ov_read_float by 1,2,3.. frames.
  *   S <path> <fmt> <len> <n1:ch1,n2:ch2,..>   the twin read-through on NON-SEEKABLE handles of a chained stream (see run_stream)
  *   F <path> <fmt> <filt> <pattern>   ov_read_filter with a non-idempotent gain/offset filter under request patterns (see run_gain)
+ *   P <path> <seekable> <half>    non-positive word sizes probed in every decoder state (see run_probe)
  *   W <path> <word> <len>         non-positive word: refused without writing at every position of a float walk
  *   V <path> <fmt> <lo> <hi> [len]   value enumeration: the filter callback of ov_read_filter overwrites the decoded block
  *                                 with the float bit patterns lo..hi-1 (frame-major, channel-minor); the packed bytes are
@@ -251,7 +252,7 @@ static void run_twin(long idx,const char *path,int fmt,int reqlen,int wordover,i
     if((k=first_touched(raw,0,GUARD))>=0||(k=first_touched(raw,GUARD+blen,GUARD+blen+GUARD))>=0){ snprintf(what,sizeof(what),"wrote_outside_buffer:off%ld:len%d:pos%ld",k-GUARD,len,(long)pa); break; }
     if(nonpos||len<frame){
       long adv;
-      if(!(r<0||(r==0&&(ateof||half)))){ snprintf(what,sizeof(what),"%s_not_refused:ret%ld:len%d:frame%d:pos%ld",neg?"negative_length":(nonpos?"nonpositive_word":"small_buffer"),r,len,frame,(long)pa); break; }
+      if(!(r<0||(r==0&&!nonpos&&(ateof||half)))){ snprintf(what,sizeof(what),"%s_not_refused:ret%ld:len%d:frame%d:pos%ld",neg?"negative_length":(nonpos?"nonpositive_word":"small_buffer"),r,len,frame,(long)pa); break; }
       if((k=first_touched(raw,GUARD,GUARD+blen))>=0){ snprintf(what,sizeof(what),"%s_refused_but_wrote:off%ld:ret%ld:len%d:pos%ld",neg?"negative_length":(nonpos?"nonpositive_word":"small_buffer"),k-GUARD,r,len,(long)pa); break; }
       if(ov_pcm_tell(&A)!=pa){ snprintf(what,sizeof(what),"refused_read_moved_position:%ld->%ld",(long)pa,(long)ov_pcm_tell(&A)); break; }
       rej++; if(r==OV_EINVAL)rejcodes[0]++; else rejcodes[1]++;
@@ -462,6 +463,85 @@ static void run_gain(long idx,const char *path,int fmt,int filt,int pattern){
   __real_free(raw);
 }
 
+/* ------------------------------------------------------------------ non-positive word sizes in every decoder state
+ * P <path> <seekable 0|1> <half 0|1>
+ * word in {0,-1,-2,INT_MIN} x (sgned,bigendianp) in {0,1}^2 x length in {0,4096} is requested: right after open, with decoded data
+ * pending (after a 2-frame read), every 5th read of a read-through, after the read that reported end of stream, and (seekable)
+ * after ov_pcm_seek to ov_pcm_total and again after seeking back to 0.  Every probe must be answered with a NEGATIVE code (no
+ * end-of-stream exception), write nothing, leave ov_pcm_tell alone; the ordinary 16-bit reads in between must still equal the
+ * float twin, end of stream must still be reported as 0 afterwards.  The channel count comes from the float twin. */
+typedef struct { long probes,einval; } pstat;
+static int probe_words(OggVorbis_File *A,unsigned char *raw,const char *state,pstat *ps,char *what,size_t wn){
+  static const int words[4]={0,-1,-2,(-2147483647-1)}; static const int lens[2]={0,4096}; int wi,fl,li;
+  for(wi=0;wi<4;wi++)for(fl=0;fl<4;fl++)for(li=0;li<2;li++){
+    ogg_int64_t pa=ov_pcm_tell(A); int bs=-1; long r,k;
+    fill_canary(raw,GUARD+4096+GUARD);
+    r=ov_read(A,(char*)raw+GUARD,lens[li],fl&1,words[wi],(fl>>1)&1,&bs);
+    ps->probes++; if(r==OV_EINVAL)ps->einval++;
+    if((k=first_touched(raw,0,GUARD+4096+GUARD))>=0){ snprintf(what,wn,"nonpositive_word_wrote:state_%s:word%d:len%d:off%ld:ret%ld",state,words[wi],lens[li],k-GUARD,r); return 1; }
+    if(r>=0){ snprintf(what,wn,"nonpositive_word_not_refused:state_%s:ret%ld:word%d:len%d:pos%ld",state,r,words[wi],lens[li],(long)pa); return 1; }
+    if(ov_pcm_tell(A)!=pa){ snprintf(what,wn,"nonpositive_word_moved_position:state_%s:%ld->%ld:word%d",state,(long)pa,(long)ov_pcm_tell(A),words[wi]); return 1; }
+  }
+  return 0;
+}
+/* one ordinary 16-bit signed little-endian read of at most `want` frames on A against the float twin B; returns frames, 0 at EOF, -1 on failure */
+static long plain_read(OggVorbis_File *A,OggVorbis_File *B,long want,int half,unsigned char *raw,float *tmp,long tmpcap,tally *t,char *what,size_t wn){
+  float **pp; int b1=-1,b2=-1,ch; long nb,r,c,j,k; ogg_int64_t pa=ov_pcm_tell(A),pb;
+  nb=ov_read_float(B,&pp,(int)want,&b2);
+  if(nb<0){ snprintf(what,wn,"float_twin_error:%ld",nb); return -1; }
+  fill_canary(raw,GUARD+4096+GUARD);
+  if(nb==0){ r=ov_read(A,(char*)raw+GUARD,4096,0,2,1,&b1); if(r!=0){ snprintf(what,wn,"float_eof_but_int_returns:%ld:pos%ld",r,(long)pa); return -1; }
+    if((k=first_touched(raw,0,GUARD+4096+GUARD))>=0){ snprintf(what,wn,"eof_but_wrote:off%ld",k-GUARD); return -1; } return 0; }
+  ch=ov_info(B,-1)->channels; if(nb*ch>tmpcap||nb*ch*2>4096){ snprintf(what,wn,"badcase_block_too_large"); return -1; }
+  for(c=0;c<ch;c++)memcpy(tmp+c*nb,pp[c],sizeof(float)*nb);
+  pb=ov_pcm_tell(B);
+  r=ov_read(A,(char*)raw+GUARD,(int)(nb*ch*2),0,2,1,&b1);
+  if(r!=nb*ch*2){ snprintf(what,wn,"read_after_probes:ret%ld!=%ldx%dx2:pos%ld",r,nb,ch,(long)pa); return -1; }
+  if((k=first_touched(raw,0,GUARD))>=0||(k=first_touched(raw,GUARD+r,GUARD+4096+GUARD))>=0){ snprintf(what,wn,"wrote_beyond_returned_count:off%ld:ret%ld",k-GUARD,r); return -1; }
+  for(j=0;j<nb;j++)for(c=0;c<ch;c++){ uint32_t bits; memcpy(&bits,&tmp[c*nb+j],4); if(judge(bits,2,1,0,raw+GUARD+(j*ch+c)*2,t)&&!what[0])snprintf(what,wn,"value_after_probes:pos%ld:frame%ld:ch%ld:bits%08x",(long)pa,j,c,bits); }
+  if(what[0])return -1;
+  if(ov_pcm_tell(A)!=pb){ snprintf(what,wn,"twin_positions_differ_after:%ld:%ld",(long)ov_pcm_tell(A),(long)pb); return -1; }
+  (void)half;
+  return nb;
+}
+static void run_probe(long idx,const char *path,int seekable,int half){
+  fent *f=get_file(path); memio ma,mb; OggVorbis_File A,B; tally t; char what[240]; pstat ps={0,0}; long reads=0,frames=0,n,states=0; int it=0;
+  unsigned char *raw=(unsigned char*)__real_malloc(GUARD+4096+GUARD+SLACK); long tmpcap=4096; float *tmp=(float*)__real_malloc(sizeof(float)*tmpcap);
+  ov_callbacks cb=seekable?mio_cb_seekable:mio_cb_stream;
+  memset(&t,0,sizeof(t)); what[0]=0; t.envelope=1;
+  mio_init(&ma,f->data,f->len); mio_init(&mb,f->data,f->len);
+  if(ov_open_callbacks(&ma,&A,NULL,0,cb)<0){ printf("%ld bad what=openA\n",idx); return; }
+  if(ov_open_callbacks(&mb,&B,NULL,0,cb)<0){ printf("%ld bad what=openB\n",idx); ov_clear(&A); return; }
+  if(half&&(ov_halfrate(&A,1)||ov_halfrate(&B,1)))snprintf(what,sizeof(what),"halfrate_refused");
+  if(!what[0]){ states++; probe_words(&A,raw,"after_open",&ps,what,sizeof(what)); }
+  if(!what[0]){ n=plain_read(&A,&B,2,half,raw,tmp,tmpcap,&t,what,sizeof(what)); if(n>0){ reads++; frames+=n; states++; probe_words(&A,raw,"data_pending",&ps,what,sizeof(what)); } else if(!what[0])snprintf(what,sizeof(what),"badcase_empty_stream"); }
+  while(!what[0]){
+    n=plain_read(&A,&B,(it%3==0)?7:256,half,raw,tmp,tmpcap,&t,what,sizeof(what));
+    if(n<=0)break;
+    reads++; frames+=n;
+    if(++it%5==0&&probe_words(&A,raw,"mid_stream",&ps,what,sizeof(what)))break;
+  }
+  if(!what[0]){ states++; probe_words(&A,raw,"after_end_of_stream",&ps,what,sizeof(what)); }
+  if(!what[0]){ n=plain_read(&A,&B,64,half,raw,tmp,tmpcap,&t,what,sizeof(what)); if(n>0)snprintf(what,sizeof(what),"data_after_end_of_stream"); }
+  if(!what[0]&&seekable){
+    ogg_int64_t total=ov_pcm_total(&A,-1);
+    if(ov_pcm_seek(&A,total/2)||ov_pcm_seek(&B,total/2))snprintf(what,sizeof(what),"seek_to_middle_failed");
+    if(!what[0]){ states++; probe_words(&A,raw,"after_seek_to_middle",&ps,what,sizeof(what)); }
+    if(!what[0]){ n=plain_read(&A,&B,33,half,raw,tmp,tmpcap,&t,what,sizeof(what)); if(n>0){ reads++; frames+=n; } else if(!what[0])snprintf(what,sizeof(what),"nothing_after_seek_to_middle"); }
+    if(!what[0]&&(ov_pcm_seek(&A,total)||ov_pcm_seek(&B,total)))snprintf(what,sizeof(what),"seek_to_total_failed");
+    if(!what[0]){ states++; probe_words(&A,raw,"after_seek_to_total",&ps,what,sizeof(what)); }
+    if(!what[0]){ n=plain_read(&A,&B,64,half,raw,tmp,tmpcap,&t,what,sizeof(what)); if(n>0)snprintf(what,sizeof(what),"data_after_seek_to_total"); }
+    if(!what[0]){ states++; probe_words(&A,raw,"after_end_of_stream_again",&ps,what,sizeof(what)); }
+    if(!what[0]&&(ov_pcm_seek(&A,0)||ov_pcm_seek(&B,0)))snprintf(what,sizeof(what),"seek_to_start_failed");
+    if(!what[0]){ n=plain_read(&A,&B,100,half,raw,tmp,tmpcap,&t,what,sizeof(what)); if(n>0){ reads++; frames+=n; } else if(!what[0])snprintf(what,sizeof(what),"nothing_after_seek_to_start"); }
+  }
+  ov_clear(&A); ov_clear(&B);
+  printf("%ld %s",idx,(what[0]||t.bad)?"bad":"ok");
+  print_tally(&t);
+  printf(" reads=%ld frames=%ld probes=%ld einval=%ld states=%ld seekable=%d half=%d what=%s\n",reads,frames,ps.probes,ps.einval,states,seekable,half,what[0]?what:"-");
+  __real_free(raw); __real_free(tmp);
+}
+
 /* ------------------------------------------------------------------ loud stream generator
  * A stream the real encoder produced, except that every residue value codebook (maptype>=1) is declared in the setup
  * header with its q_min/q_delta exponent raised by `shift`: the decoder reconstructs every residue value 2^shift times
@@ -533,6 +613,7 @@ int main(int argc,char **argv){
     }
     else if(kind[0]=='S'&&sscanf(line,"%*d %*s %399s %d %d %399s",path,&fmt,&len,lspec)==4&&fmt>=0&&fmt<8)run_stream(idx,path,fmt,len,lspec);
     else if(kind[0]=='F'&&sscanf(line,"%*d %*s %399s %d %d %d",path,&fmt,&len,&half)==4&&fmt>=0&&fmt<8)run_gain(idx,path,fmt,len,half);
+    else if(kind[0]=='P'&&sscanf(line,"%*d %*s %399s %d %d",path,&fmt,&half)==3&&(fmt==0||fmt==1)&&(half==0||half==1))run_probe(idx,path,fmt,half);
     else printf("%ld bad what=badcase\n",idx);
     memset(&it,0,sizeof(it)); setitimer(ITIMER_VIRTUAL,&it,NULL);
     fflush(stdout);
